@@ -6,7 +6,7 @@ CONSTANTS
   Ghosts <- OneGhost
   MsgBound = 2
   QBound = 2
-  MCTopos <- AllTopos
+  MCTopos <- LiveTopos
   AsIs = FALSE
 CONSTRAINT Bound
 INVARIANTS TypeOK D1 D2 D3 D4File D4Disc NoCrash KeysAgree D5
